@@ -7,8 +7,13 @@ import (
 	"syscall"
 )
 
+// Signals that cancel the running procedure, so that the transaction is rolled back and every lock file and
+// temporary file is removed before the process ends. SIGHUP (the terminal or the session went away) and SIGPIPE (the
+// reader of the standard output or the standard error went away) would otherwise end the process on the spot.
 var Signals = []os.Signal{
 	syscall.SIGINT,
 	syscall.SIGQUIT,
 	syscall.SIGTERM,
+	syscall.SIGHUP,
+	syscall.SIGPIPE,
 }
